@@ -1,20 +1,20 @@
 # C16 -- the threaded dot product equals the sequential one for every length and CPU count,
 #        independently of thread scheduling.
-import math
+import math, os
 from fractions import Fraction
 from common import *
 from engine import Case
 from veclib import hx, coq_fvec
 
 PID = "C16"
-IMPORTS = "From OV Require Import Model.Vector Model.ParDot."
+IMPORTS = "From Coq Require Import Uint63.\nFrom OV Require Import Model.Vector Model.ParDot."
 MODEL_VO = ["Model/ParDot.vo"]
 EXHAUSTIVE = True
 MAXLEN = 200
-BOTH = 48
-RULE = ("vec.pardot cases, the executor re-run under `taskset -c 0-(k-1)` for every k = 1..16 (the worker count is "
-        "num_cpus::get(), observed in-process and compared with k): for every k and every length 0..200 (exhaustive in "
-        "(length, k)) a case on arbitrary f64 data and/or one on small-integer data whose partial sums are exact (both for lengths <= 48, "
+BOTH = 64
+RULE = ("vec.pardot cases, the executor re-run under `taskset -c <first k CPUs of the affinity mask>` for every k = 1..N, N = min(16, CPUs "
+        "available at run time; recorded as worker_counts_exercised) (the worker count is num_cpus::get(), observed in-process and compared with k): for every k and every length 0..200 (exhaustive in "
+        "(length, k)) a case on arbitrary f64 data and/or one on small-integer data whose partial sums are exact (both for lengths <= 64, "
         "alternating above in the quick tier; both everywhere in the thorough tier), plus seeded "
         "longer lengths (201..3000); every case calls dot_f64 3 times (5 thorough), a share of them under spinning background "
         "threads; distinct = distinct executor line x affinity; non-trivial = length >= 1")
@@ -58,18 +58,69 @@ def ival(rng):
 def term(k, reps, v, w):
     return "@pardot_out AF flat_f %d %d %s %s" % (k, reps, coq_fvec(v), coq_fvec(w))
 
-def mk(k, v, w, reps, busy, exact, family):
+# ---- the data generator mirrored by coq/Model/ParDot.v (lcg / gen_val / gen_vec): the model side builds its two
+# vectors inside Coq from the seed, the executor gets the same values as explicit bit patterns
+M63 = (1 << 63) - 1
+def lcg(s): return (s * 6364136223846793005 + 1442695040888963407) & M63
+def gen_val(mode, s):
+    if mode == 0:
+        x = math.ldexp(float(s >> 30), ((s >> 24) & 63) - 40)
+        return -x if (s >> 23) & 1 else x
+    return float((s >> 30) % 2001) - 1000.0
+def gen_vec(mode, n, s):
+    out = []
+    for _ in range(n):
+        s = lcg(s); out.append(gen_val(mode, s))
+    return out, s
+def gen_data(mode, n, seed):
+    v, s1 = gen_vec(mode, n, seed)
+    w, _ = gen_vec(mode, n, s1)
+    return v, w
+
+def cpus_available():
+    """the CPUs this process may run on (affinity mask): the worker counts 1..len(.) are reachable through taskset"""
+    try:
+        return sorted(os.sched_getaffinity(0))
+    except Exception:
+        return list(range(os.cpu_count() or 1))
+
+CPUS = cpus_available()
+EXERCISED = []
+OBSERVED = {}      # k (CPUs in the mask) -> num_cpus::get() observed by the executor in-process under that mask
+
+def probe_worker_counts():
+    """What num_cpus::get() returns under each affinity mask, observed by the executor itself.  Here it follows the
+    mask exactly (OBSERVED[k] == k); under a cgroup CPU quota it may be smaller -- the model is run with the count
+    actually observed, whatever it is."""
+    exe, out = build_harness()
+    if exe is None:
+        return
+    for k in range(1, min(len(CPUS), 16) + 1):
+        try:
+            ans = run_harness(exe, ["p f64 vec.pardot [] [] 1 0"], "C16probe", prefix="taskset -c %s " % ",".join(str(c) for c in CPUS[:k]))
+            OBSERVED[k] = int(ans["p"][0][1:])
+        except Exception:
+            pass
+
+def mk(k, v, w, reps, busy, exact, family, seed=None):
     line = "vec.pardot %s %s %d %d" % (tok_vec('f64', v), tok_vec('f64', w), reps, busy)
-    meta = {"_env": {"taskset": "0-%d" % (k - 1)} if k else None, "k": k, "v": v, "w": w, "reps": reps, "exact": exact}
-    if not k:
-        meta.pop("_env")
-    return Case('f64', line, term(k, reps, v, w) if k else None, meta=meta, family=family,
+    # pin to the first k CPUs of the mask actually available (never assume 16, nor that they are numbered 0..)
+    meta = {"_env": {"taskset": ",".join(str(c) for c in CPUS[:k])}, "k": k, "v": v, "w": w, "reps": reps, "exact": exact}
+    meta["t"] = OBSERVED.get(k, k)
+    if seed is not None:
+        meta["seed"] = seed
+        tm = "pardot_gen_out %d %d %d %d (%d)%%uint63" % (meta["t"], reps, len(v), 1 if exact else 0, seed)
+    else:
+        tm = term(meta["t"], reps, v, w)
+    return Case('f64', line, tm, meta=meta, family=family,
                 nontrivial=(len(v) >= 1), tol=0.0, exact_bits=True)
 
 def generate(rng, tier):
     cases = []
     reps = 5 if tier == "thorough" else 3
-    ks = list(range(1, 17))
+    probe_worker_counts()
+    ks = list(range(1, min(len(CPUS), 16) + 1))
+    EXERCISED[:] = sorted(set(OBSERVED.get(k, k) for k in ks))
     for k in ks:
         g = rng.fork("k%d" % k)
         for n in range(0, MAXLEN + 1):
@@ -78,11 +129,17 @@ def generate(rng, tier):
             both = tier == "thorough" or n <= BOTH
             if both or (n + k) % 2 == 0:
                 busy = 2 if g.chance(1, 16 if tier == "quick" else 6) else 0
-                v = [fval(g) for _ in range(n)]; w = [fval(g) for _ in range(n)]
-                cases.append(mk(k, v, w, reps, busy, False, "arbitrary-f64"))
+                if n % 10 == 3:      # hand-made menu (zeros, signed zeros, huge/tiny magnitudes), explicit literals
+                    v = [fval(g) for _ in range(n)]; w = [fval(g) for _ in range(n)]
+                    cases.append(mk(k, v, w, reps, busy, False, "arbitrary-f64"))
+                else:
+                    sd = g.next() & M63
+                    v, w = gen_data(0, n, sd)
+                    cases.append(mk(k, v, w, reps, busy, False, "arbitrary-f64", seed=sd))
             if both or (n + k) % 2 == 1:
-                v = [ival(g) for _ in range(n)]; w = [ival(g) for _ in range(n)]
-                cases.append(mk(k, v, w, reps, 0, True, "exact-sum-integers"))
+                sd = g.next() & M63
+                v, w = gen_data(1, n, sd)
+                cases.append(mk(k, v, w, reps, 0, True, "exact-sum-integers", seed=sd))
         nlong = 12 if tier == "thorough" else 2
         for _ in range(nlong):
             n = g.range(MAXLEN + 1, 3000 if tier == "thorough" else 1200)
@@ -94,8 +151,16 @@ def generate(rng, tier):
         cases.append(mk(k, [1.0, 2.0], [1.0], 1, 0, True, "size-mismatch"))
     return cases
 
+def extra_coverage():
+    return {"cpus_available": len(CPUS), "num_cpus_get_observed_per_mask_size": dict(OBSERVED),
+            "num_cpus_follows_affinity_mask": all(OBSERVED.get(k) == k for k in OBSERVED), "worker_counts_exercised": list(EXERCISED),
+            "worker_counts_not_reachable_here": [k for k in range(1, 17) if k not in EXERCISED]}
+
 def case_from_json(j):
     m = j["meta"]
+    if not OBSERVED: probe_worker_counts()
+    if m["k"] > len(CPUS):
+        return None          # this affinity cannot be set on the present machine
     return mk(m["k"], [float(x) for x in m["v"]], [float(x) for x in m["w"]], m.get("reps", 3), m.get("busy", 0), m.get("exact", False), "corpus")
 
 def oracle(case, items):
